@@ -149,6 +149,27 @@ pub fn history(cfg: &Cfg, rep: &mut Report, fl: Flavour, h: u64, steps: usize) {
         } else {
             gen_op(&mut rng, &m, fl, cur, max_live)
         };
+        // list flavours: the gates open and close during the history (a refused call must leave no trace)
+        if (fl.is_allow() || fl.is_block()) && rng.chance(1, 10) {
+            let who = rng.idx(n);
+            let listed = rng.chance(1, 2);
+            if tok.set_listed(who, listed).is_ok() {
+                m.listed[who] = listed;
+            }
+            rep.op(format!("#{step} list status of {who} := {listed}"));
+            rep.count("list_toggles");
+            pre = tok.observe();
+        }
+        // votes flavours: delegations make every balance change move checkpoints as well
+        if matches!(fl, Flavour::Votes | Flavour::ExVotes) && rng.chance(1, 8) {
+            let (who, to) = (rng.idx(n), rng.idx(n));
+            w.env.mock_all_auths();
+            let r: Result<(), Fail> = crate::world::invoke(&w.env, &tok.addr, "delegate", crate::args!(&w.env, tok.u[who], tok.u[to]));
+            rep.op(format!("#{step} delegate({who} -> {to}) -> {}", tag(&r)));
+            rep.count("delegations");
+            let now = tok.observe();
+            rep.check("res", now == pre, &format!("C01/res/{}/delegate/changed-balances", fl.name()), || format!("delegate({who} -> {to}) moved token state {pre:?} -> {now:?}"));
+        }
         let want = m.predict(&op, cur, max_live, fl);
         // a transfer to the classic account names it as a multiplexed address two times out of three:
         // the tokens must be credited to (and every gate evaluated on) the underlying account
